@@ -57,18 +57,34 @@ def newgen(name, d=None):
 
 
 def mmul(a, b):
+    """product of two monomials (sorted tuples of (generator, exponent)): merge"""
     if not a:
         return b
     if not b:
         return a
-    d = dict(a)
-    for g, e in b:
-        v = d.get(g, 0) + e
-        if v:
-            d[g] = v
+    i = j = 0
+    out = []
+    la, lb = len(a), len(b)
+    while i < la and j < lb:
+        x = a[i]
+        y = b[j]
+        if x[0] < y[0]:
+            out.append(x)
+            i += 1
+        elif y[0] < x[0]:
+            out.append(y)
+            j += 1
         else:
-            d.pop(g, None)
-    return tuple(sorted(d.items()))
+            e = x[1] + y[1]
+            if e:
+                out.append((x[0], e))
+            i += 1
+            j += 1
+    if i < la:
+        out.extend(a[i:])
+    if j < lb:
+        out.extend(b[j:])
+    return tuple(out)
 
 
 ZERO = Fraction(0)
